@@ -21,7 +21,13 @@ def run_case(case):
     keep = case["keep"]
     res = {"key": [case["seed"], std, keep], "counts": {}, "findings": [], "nontrivial": True}
     opts = layout.FreeOpts(p_cont=0.3, comments=True, p_extra_blank=0.0)
-    L = layout.render_free(p, case["seed"] ^ 0xC07, opts)
+    # comment texts with the characters str.splitlines() treats as line breaks although they are
+    # not (form feed = the page breaks of legacy sources, VT, FS/GS/RS, NEL, LS/PS): a physical
+    # line ends at \n only
+    ctexts = None
+    if case["seed"] % 2 == 0:
+        ctexts = layout.COMMENT_TEXTS + ["! page\x0cbreak", "!\x0c", "! vt\x0bx", "! fs\x1cgs\x1drs\x1e", "! nel\x85x", "! ls\u2028ps\u2029"]
+    L = layout.render_free(p, case["seed"] ^ 0xC07, opts, comment_texts=ctexts)
     base = list(L.lines)
     o = real.try_parse(L.text(), std=std, ignore_comments=not keep, free=True)
     if o.kind != "tree":
